@@ -32,8 +32,8 @@
 (*   body    sequence of statements [op, arr, locks]: op "rmw" (in place   *)
 (*           accumulation into arr: read-modify-write of the whole array), *)
 (*           "slot" (assignment to the part of arr owned by the current    *)
-(*           iteration), "read"/"nop"; locks = sequence of lock numbers    *)
-(*           acquired around the statement, outermost first.               *)
+(*           iteration), "read" (fetches arr), "nop"; locks = sequence of  *)
+(*           lock numbers acquired around the statement, outermost first.  *)
 (* The harness exports these records from the scripts that the real        *)
 (* evaluable.compile generates (binding T) and replays behaviours of this  *)
 (* spec, with the state predicted here, into the real parallel.ctxrange /  *)
@@ -51,12 +51,14 @@ CONSTANTS MaxProcs,     \* bound on cfg.np
           CheckExit,    \* TRUE: _fork raises if a child did not exit 0 (FALSE = spec mutant)
           KillChildren, \* TRUE: a failing parent kills its children (FALSE = variant, see ParentKills)
           KillInCS,     \* TRUE: SIGKILL may hit a process that holds a lock
-          Record        \* TRUE: keep the history of actions for replay
+          Record,       \* TRUE: keep the history of actions for replay
+          FaultPlans    \* set of sets of step numbers; {{}} = faults at any time.  Used with
+                        \* Record to spread the faults of simulated behaviours over the run.
 
-VARIABLES cfg, pc, index, rlock, loc, step, nheld, alock, tmp, shm, priv,
+VARIABLES cfg, plan, pc, index, rlock, loc, step, nheld, alock, tmp, shm, priv,
           claimed, done, exit, nfork, nwait, nfails, faults, bad, hist
 
-vars == <<cfg, pc, index, rlock, loc, step, nheld, alock, tmp, shm, priv,
+vars == <<cfg, plan, pc, index, rlock, loc, step, nheld, alock, tmp, shm, priv,
           claimed, done, exit, nfork, nwait, nfails, faults, bad, hist>>
 
 Procs == 0..(MaxProcs - 1)
@@ -75,6 +77,7 @@ Writes == {"rmw", "slot"}
 Mem(p, a) == IF cfg.shared[a] THEN shm[a] ELSE priv[p][a]
 
 Init == /\ cfg \in Configs
+        /\ plan \in FaultPlans
         /\ pc = [p \in Procs |-> IF p = 0 THEN (IF cfg.np > 1 THEN "forking" ELSE "acq") ELSE "unborn"]
         /\ index = 0
         /\ rlock = Free
@@ -106,7 +109,7 @@ Fork == /\ pc[0] = "forking" /\ nfork < NP - 1
         /\ LET c == nfork + 1 IN
              /\ pc' = [pc EXCEPT ![c] = "acq", ![0] = IF c = NP - 1 THEN "acq" ELSE "forking"]
              /\ nfork' = c
-             /\ UNCHANGED <<cfg, index, rlock, loc, step, nheld, alock, tmp, shm, priv, claimed, done, exit, nwait, nfails, faults, bad>>
+             /\ UNCHANGED <<cfg, plan, index, rlock, loc, step, nheld, alock, tmp, shm, priv, claimed, done, exit, nwait, nfails, faults, bad>>
              /\ Log(0, "Fork", c)
 
 \* all living children of the parent receive SIGKILL (parallel.py:75-76)
@@ -115,31 +118,31 @@ ParentKills == /\ exit' = [c \in Procs |-> IF Killed(c) THEN "sig" ELSE exit[c]]
                /\ pc' = [c \in Procs |-> IF c = 0 THEN "raised" ELSE IF Killed(c) THEN "dead" ELSE pc[c]]
 
 \* fault: os.fork raises in the parent
-ForkFail == /\ pc[0] = "forking" /\ faults < MaxFaults
+ForkFail == /\ pc[0] = "forking" /\ faults < MaxFaults /\ (plan = {} \/ Len(hist) \in plan)
             /\ faults' = faults + 1
             /\ ParentKills
-            /\ UNCHANGED <<cfg, index, rlock, loc, step, nheld, alock, tmp, shm, priv, claimed, done, nfork, nwait, nfails, bad>>
+            /\ UNCHANGED <<cfg, plan, index, rlock, loc, step, nheld, alock, tmp, shm, priv, claimed, done, nfork, nwait, nfails, bad>>
             /\ Log(0, "ForkFail", nfork)
 
 \* ------------------------------------------------------------------ range.__next__
 ClaimAcq(p) == /\ pc[p] = "acq"
                /\ IF LockedClaim THEN rlock = Free /\ rlock' = p ELSE UNCHANGED rlock
                /\ pc' = [pc EXCEPT ![p] = "read"]
-               /\ UNCHANGED <<cfg, index, loc, step, nheld, alock, tmp, shm, priv, claimed, done, exit, nfork, nwait, nfails, faults, bad>>
+               /\ UNCHANGED <<cfg, plan, index, loc, step, nheld, alock, tmp, shm, priv, claimed, done, exit, nfork, nwait, nfails, faults, bad>>
                /\ Log(p, "ClaimAcq", 0)
 
 \* iiter = self._index.value; if iiter >= self._stop (the test is local)
 ClaimRead(p) == /\ pc[p] = "read"
                 /\ loc' = [loc EXCEPT ![p] = index]
                 /\ pc' = [pc EXCEPT ![p] = IF index >= NI THEN "relx" ELSE "write"]
-                /\ UNCHANGED <<cfg, index, rlock, step, nheld, alock, tmp, shm, priv, claimed, done, exit, nfork, nwait, nfails, faults, bad>>
+                /\ UNCHANGED <<cfg, plan, index, rlock, step, nheld, alock, tmp, shm, priv, claimed, done, exit, nfork, nwait, nfails, faults, bad>>
                 /\ Log(p, "ClaimRead", index)
 
 \* self._index.value = iiter + 1
 ClaimWrite(p) == /\ pc[p] = "write"
                  /\ index' = loc[p] + 1
                  /\ pc' = [pc EXCEPT ![p] = "rel"]
-                 /\ UNCHANGED <<cfg, rlock, loc, step, nheld, alock, tmp, shm, priv, claimed, done, exit, nfork, nwait, nfails, faults, bad>>
+                 /\ UNCHANGED <<cfg, plan, rlock, loc, step, nheld, alock, tmp, shm, priv, claimed, done, exit, nfork, nwait, nfails, faults, bad>>
                  /\ Log(p, "ClaimWrite", loc[p] + 1)
 
 \* leaving `with self._lock` and returning iiter: the loop body starts
@@ -153,7 +156,7 @@ ClaimRel(p) == /\ pc[p] = "rel"
                   ELSE /\ pc' = [pc EXCEPT ![p] = "body"]
                        /\ step' = [step EXCEPT ![p] = 1]
                        /\ UNCHANGED done
-               /\ UNCHANGED <<cfg, index, loc, nheld, alock, tmp, shm, priv, exit, nfork, nwait, nfails, faults, bad>>
+               /\ UNCHANGED <<cfg, plan, index, loc, nheld, alock, tmp, shm, priv, exit, nfork, nwait, nfails, faults, bad>>
                /\ Log(p, "ClaimRel", loc[p])
 
 \* StopIteration leaves the with block: the loop is exhausted for p.  A
@@ -162,7 +165,7 @@ ClaimRel(p) == /\ pc[p] = "rel"
 ClaimExh(p) == /\ pc[p] = "relx"
                /\ rlock' = IF LockedClaim THEN Free ELSE rlock
                /\ pc' = [pc EXCEPT ![p] = IF p = 0 THEN "wait" ELSE "exiting"]
-               /\ UNCHANGED <<cfg, index, loc, step, nheld, alock, tmp, shm, priv, claimed, done, exit, nfork, nwait, nfails, faults, bad>>
+               /\ UNCHANGED <<cfg, plan, index, loc, step, nheld, alock, tmp, shm, priv, claimed, done, exit, nfork, nwait, nfails, faults, bad>>
                /\ Log(p, "ClaimExh", 0)
 
 \* ------------------------------------------------------------------ loop body
@@ -185,16 +188,16 @@ AcqA(p) == /\ pc[p] = "body" /\ nheld[p] < Len(Cur(p).locks)
                 /\ alock[l] = Free
                 /\ alock' = [alock EXCEPT ![l] = p]
                 /\ nheld' = [nheld EXCEPT ![p] = @ + 1]
-                /\ UNCHANGED <<cfg, pc, index, rlock, loc, step, tmp, shm, priv, claimed, done, exit, nfork, nwait, nfails, faults, bad>>
+                /\ UNCHANGED <<cfg, plan, pc, index, rlock, loc, step, tmp, shm, priv, claimed, done, exit, nfork, nwait, nfails, faults, bad>>
                 /\ Log(p, "AcqA", l)
 
 Ready(p) == pc[p] = "body" /\ nheld[p] = Len(Cur(p).locks)
 
 \* numpy.add(acc, inc, out=acc) / numpy.add.at(acc, idx, inc): fetch ...
-UpdRead(p) == /\ Ready(p) /\ Cur(p).op = "rmw"
+UpdRead(p) == /\ Ready(p) /\ Cur(p).op \in {"rmw", "read"}
               /\ tmp' = [tmp EXCEPT ![p] = Mem(p, Cur(p).arr)]
               /\ pc' = [pc EXCEPT ![p] = "upd"]
-              /\ UNCHANGED <<cfg, index, rlock, loc, step, nheld, alock, shm, priv, claimed, done, exit, nfork, nwait, nfails, faults, bad>>
+              /\ UNCHANGED <<cfg, plan, index, rlock, loc, step, nheld, alock, shm, priv, claimed, done, exit, nfork, nwait, nfails, faults, bad>>
               /\ Log(p, "UpdRead", Cur(p).arr)
 
 Store(p, a, val) == IF cfg.shared[a]
@@ -202,11 +205,11 @@ Store(p, a, val) == IF cfg.shared[a]
                     ELSE priv' = [priv EXCEPT ![p][a] = val] /\ UNCHANGED shm
 
 \* ... add the contribution of this iteration and store
-UpdWrite(p) == /\ pc[p] = "upd"
+UpdWrite(p) == /\ pc[p] = "upd" /\ Cur(p).op = "rmw"
                /\ Store(p, Cur(p).arr, [tmp[p] EXCEPT ![loc[p] + 1] = @ + 1])
                /\ tmp' = [tmp EXCEPT ![p] = <<>>]
                /\ OpDone(p)
-               /\ UNCHANGED <<cfg, index, rlock, loc, nheld, alock, claimed, exit, nfork, nwait, nfails, faults, bad>>
+               /\ UNCHANGED <<cfg, plan, index, rlock, loc, nheld, alock, claimed, exit, nfork, nwait, nfails, faults, bad>>
                /\ Log(p, "UpdWrite", Cur(p).arr)
 
 \* assignment to the elements owned by the current iteration (atomic with
@@ -214,12 +217,19 @@ UpdWrite(p) == /\ pc[p] = "upd"
 Slot(p) == /\ Ready(p) /\ Cur(p).op = "slot"
            /\ Store(p, Cur(p).arr, [Mem(p, Cur(p).arr) EXCEPT ![loc[p] + 1] = @ + 1])
            /\ OpDone(p)
-           /\ UNCHANGED <<cfg, index, rlock, loc, nheld, alock, tmp, claimed, exit, nfork, nwait, nfails, faults, bad>>
+           /\ UNCHANGED <<cfg, plan, index, rlock, loc, nheld, alock, tmp, claimed, exit, nfork, nwait, nfails, faults, bad>>
            /\ Log(p, "Slot", Cur(p).arr)
 
-Nop(p) == /\ Ready(p) /\ Cur(p).op \notin Writes
+\* a statement that only reads the array: the fetch is complete
+RdEnd(p) == /\ pc[p] = "upd" /\ Cur(p).op = "read"
+            /\ tmp' = [tmp EXCEPT ![p] = <<>>]
+            /\ OpDone(p)
+            /\ UNCHANGED <<cfg, plan, index, rlock, loc, nheld, alock, shm, priv, claimed, exit, nfork, nwait, nfails, faults, bad>>
+            /\ Log(p, "RdEnd", Cur(p).arr)
+
+Nop(p) == /\ Ready(p) /\ Cur(p).op \notin {"rmw", "read", "slot"}
           /\ OpDone(p)
-          /\ UNCHANGED <<cfg, index, rlock, loc, nheld, alock, tmp, shm, priv, claimed, exit, nfork, nwait, nfails, faults, bad>>
+          /\ UNCHANGED <<cfg, plan, index, rlock, loc, nheld, alock, tmp, shm, priv, claimed, exit, nfork, nwait, nfails, faults, bad>>
           /\ Log(p, "Nop", Cur(p).arr)
 
 \* leaving `with lock<n>:`, innermost first
@@ -232,7 +242,7 @@ RelA(p) == /\ pc[p] = "unl"
                         /\ step' = [step EXCEPT ![p] = AdvStep(p)]
                         /\ done' = AdvDone(p)
                    ELSE UNCHANGED <<pc, step, done>>
-                /\ UNCHANGED <<cfg, index, rlock, loc, tmp, shm, priv, claimed, exit, nfork, nwait, nfails, faults, bad>>
+                /\ UNCHANGED <<cfg, plan, index, rlock, loc, tmp, shm, priv, claimed, exit, nfork, nwait, nfails, faults, bad>>
                 /\ Log(p, "RelA", l)
 
 \* ------------------------------------------------------------------ faults
@@ -240,7 +250,7 @@ RelA(p) == /\ pc[p] = "unl"
 \* release the array locks p holds.  A child reports failure with
 \* os._exit(1) (parallel.py:70-74); the parent kills all children and
 \* re-raises (parallel.py:75-77).
-Exc(p) == /\ Ready(p) /\ faults < MaxFaults
+Exc(p) == /\ Ready(p) /\ faults < MaxFaults /\ (plan = {} \/ Len(hist) \in plan)
           /\ faults' = faults + 1
           /\ alock' = [l \in Locks |-> IF alock[l] = p THEN Free ELSE alock[l]]
           /\ nheld' = [nheld EXCEPT ![p] = 0]
@@ -249,27 +259,29 @@ Exc(p) == /\ Ready(p) /\ faults < MaxFaults
              THEN ParentKills
              ELSE /\ exit' = [exit EXCEPT ![p] = "err"]
                   /\ pc' = [pc EXCEPT ![p] = "dead"]
-          /\ UNCHANGED <<cfg, index, rlock, loc, step, tmp, shm, priv, claimed, done, nfork, nwait, nfails>>
+          /\ UNCHANGED <<cfg, plan, index, rlock, loc, step, tmp, shm, priv, claimed, done, nfork, nwait, nfails>>
           /\ Log(p, "Exc", step[p])
+
+FaultOK == faults < MaxFaults /\ (plan = {} \/ Len(hist) \in plan)
 
 Holds(p) == rlock = p \/ \E l \in Locks : alock[l] = p
 
 \* fault: a child receives SIGKILL.  Locks it holds stay locked forever
 \* (POSIX semaphores are not released at process death).
-Kill(c) == /\ c \in Children /\ pc[c] \notin {"unborn", "dead"} /\ faults < MaxFaults
+Kill(c) == /\ c \in Children /\ pc[c] \notin {"unborn", "dead"} /\ FaultOK
            /\ KillInCS \/ ~Holds(c)
            /\ faults' = faults + 1
            /\ bad' = bad \cup {c}
            /\ exit' = [exit EXCEPT ![c] = "sig"]
            /\ pc' = [pc EXCEPT ![c] = "dead"]
-           /\ UNCHANGED <<cfg, index, rlock, loc, step, nheld, alock, tmp, shm, priv, claimed, done, nfork, nwait, nfails>>
+           /\ UNCHANGED <<cfg, plan, index, rlock, loc, step, nheld, alock, tmp, shm, priv, claimed, done, nfork, nwait, nfails>>
            /\ Log(c, "Kill", pc[c])
 
 \* ------------------------------------------------------------------ exit, wait
 ChildExit(c) == /\ c \in Children /\ pc[c] = "exiting"
                 /\ exit' = [exit EXCEPT ![c] = "ok"]
                 /\ pc' = [pc EXCEPT ![c] = "dead"]
-                /\ UNCHANGED <<cfg, index, rlock, loc, step, nheld, alock, tmp, shm, priv, claimed, done, nfork, nwait, nfails, faults, bad>>
+                /\ UNCHANGED <<cfg, plan, index, rlock, loc, step, nheld, alock, tmp, shm, priv, claimed, done, nfork, nwait, nfails, faults, bad>>
                 /\ Log(c, "ChildExit", 0)
 
 \* os.waitpid(pid, 0) for the children in the order of creation
@@ -278,16 +290,16 @@ Wait == /\ pc[0] = "wait" /\ nwait < NP - 1
              /\ exit[c] # "none"
              /\ nwait' = c
              /\ nfails' = nfails + (IF exit[c] = "ok" THEN 0 ELSE 1)
-             /\ UNCHANGED <<cfg, pc, index, rlock, loc, step, nheld, alock, tmp, shm, priv, claimed, done, exit, nfork, faults, bad>>
+             /\ UNCHANGED <<cfg, plan, pc, index, rlock, loc, step, nheld, alock, tmp, shm, priv, claimed, done, exit, nfork, faults, bad>>
              /\ Log(0, "Wait", [c |-> c, st |-> exit[c]])
 
 Finish == /\ pc[0] = "wait" /\ nwait = NP - 1
           /\ pc' = [pc EXCEPT ![0] = IF CheckExit /\ nfails > 0 THEN "raised" ELSE "returned"]
-          /\ UNCHANGED <<cfg, index, rlock, loc, step, nheld, alock, tmp, shm, priv, claimed, done, exit, nfork, nwait, nfails, faults, bad>>
+          /\ UNCHANGED <<cfg, plan, index, rlock, loc, step, nheld, alock, tmp, shm, priv, claimed, done, exit, nfork, nwait, nfails, faults, bad>>
           /\ Log(0, "Finish", nfails)
 
 Step(p) == \/ ClaimAcq(p) \/ ClaimRead(p) \/ ClaimWrite(p) \/ ClaimRel(p) \/ ClaimExh(p)
-           \/ AcqA(p) \/ UpdRead(p) \/ UpdWrite(p) \/ Slot(p) \/ Nop(p) \/ RelA(p)
+           \/ AcqA(p) \/ UpdRead(p) \/ UpdWrite(p) \/ RdEnd(p) \/ Slot(p) \/ Nop(p) \/ RelA(p)
 Progress == \/ Fork \/ Wait \/ Finish
             \/ \E p \in 0..(NP - 1) : Step(p) \/ ChildExit(p)
 Fault == \/ ForkFail
@@ -326,7 +338,8 @@ ExactlyOnce == Returned => \A i \in 1..NI : claimed[i] = 1 /\ done[i] = 1
 \* critical sections: the counter of the shared range, the in place updates
 InRangeCS(p) == pc[p] \in {"read", "write", "rel", "relx"}
 MutexRange == \A p, q \in Procs : p # q => ~(InRangeCS(p) /\ InRangeCS(q))
-MutexArrays == \A p, q \in Procs : (p # q /\ pc[p] = "upd" /\ pc[q] = "upd")
+\* (two statements that only read the same array do not conflict)
+MutexArrays == \A p, q \in Procs : (p # q /\ pc[p] = "upd" /\ pc[q] = "upd" /\ Cur(p).op = "rmw")
                                    => ~(Cur(p).arr = Cur(q).arr /\ cfg.shared[Cur(p).arr])
 \* the caller sees every contribution exactly once
 NoLostUpdate == Returned => \A a \in Arrs : Result(a) = Expected(a)
